@@ -4,6 +4,9 @@
 //! in order).
 use neurons::{activation::Activation, feedback, network::Network, objective, optimizer, tensor, verif};
 
+#[path = "../../sim/fidelity.rs"]
+mod fidelity;
+
 struct Lcg(u64);
 impl Lcg {
     fn next(&mut self) -> f32 {
@@ -63,6 +66,16 @@ fn scenario(id: usize) -> (Network, usize, usize, usize, usize, usize, usize) {
 
 fn main() {
     let args: Vec<String> = std::env::args().collect();
+    if args.get(1).map(|s| s.as_str()) == Some("fidelity") {
+        // split-tree log of the REAL rayon-core on a one-worker pool (run natively)
+        rayon::ThreadPoolBuilder::new().num_threads(1).build_global().unwrap();
+        println!("== called from outside the pool");
+        print!("{}", fidelity::fidelity_log());
+        let pool = rayon::ThreadPoolBuilder::new().num_threads(1).build().unwrap();
+        println!("== called from inside the pool");
+        print!("{}", pool.install(fidelity::fidelity_log));
+        return;
+    }
     let id: usize = args.get(1).and_then(|s| s.parse().ok()).unwrap_or(0);
     let threads: usize = args.get(2).and_then(|s| s.parse().ok()).unwrap_or(1);
     let hash_seed: u64 = args.get(3).and_then(|s| s.parse().ok()).unwrap_or(0);
